@@ -41,6 +41,7 @@ def specs(r):
     qs = []
     scn = r["scn"]
     jobs = {}      # key -> sch op
+    skip_nodelay = {}
     consumed = {}  # key -> list of due instants consumed by successive invocations
     for i, o in enumerate(scn["ops"]):
         if i >= len(r["obs"]) or "truncated" in r["obs"][i]:
@@ -51,8 +52,24 @@ def specs(r):
             if o.get("delay", True) or not o.get("skip"):
                 jobs[k] = o
                 consumed[k] = []
+            else:
+                skip_nodelay[k] = o
         elif o["op"] == "exec":
             for (k, due_seen, _p) in ob["invoked"]:
+                if k in skip_nodelay:
+                    # skip_missing with the deprecated delay=False: the first run belongs to `start`, and a cyclic job is then
+                    # planned for start + interval (not t + interval) - only what every reading of the statement demands is
+                    # required: the new due time is not earlier than t, at most one interval later, and for clock-time
+                    # jobs an occurrence that skips none after max(t, start)
+                    o3 = skip_nodelay[k]
+                    new3, t3 = ob["jobs"][k][0], o["clock"]
+                    if due_seen <= t3:
+                        if o3["call"] == 0:
+                            qs.append((f"spec le {t3} {new3}", {"what": "skip_nodelay_not_before_t", "key": k, "op": i}))
+                            qs.append((f"spec le {new3} {t3 + o3['timings'][0][1]}", {"what": "skip_nodelay_at_most_one_interval", "key": k, "op": i}))
+                        else:
+                            st3 = (o3["start"][0] - (o3["start"][1] or 0)) if o3.get("start") else o3["clock"]
+                            qs.append((f"spec skipdue {tms_tokens(o3)} {t3} {max(t3, st3)} {new3}", {"what": "skip_due_nodelay", "key": k, "op": i}))
                 if k not in jobs:
                     continue
                 o2 = jobs[k]
